@@ -44,7 +44,7 @@ RULE = ('sequences of 1-10 blocks on systems drawn from 8 raster families (Sieme
         'delays, all raster-aligned (stream valid: report must be empty, write() must not warn). Fault streams overwrite one or '
         '2-4 timing fields: +0.5 / +0.3 / +2e-4 / +1e-5 raster (must be reported), +1e-9 raster (must not), ADC delay on the '
         'ADC but not the RF raster, negative delays, delays below the dead time, events built for a system with shorter dead '
-        'times / ring-down, stored block duration cut, extended or moved off the block raster, a field or the block duration moved by one step of ANOTHER raster of the system, repeated blocks (same events, other padding, valid or off raster), seconds-long delays (1e5-3e6 block rasters) with tiny offsets. Oracle: TimingValid/Violates '
+        'times / ring-down, stored block duration cut, extended or moved off the block raster, a field or the block duration moved by one step of ANOTHER raster of the system, repeated blocks (same events, other padding, valid or off raster), seconds-long delays (1e5-3e6 block rasters) with tiny offsets; 30% of the RF/ADC dead and ring-down times are NOT on the RF raster (delays one aligned step below them must be reported). Object histories (110 quick): one Sequence object goes through add_block / set_block / read() of another (mostly invalid) file / remove_duplicates(in_place) / assignment of another system / repeated check_timing, and after every step the report must equal the oracle for the CURRENT content of the object. Oracle: TimingValid/Violates '
         'recomputed with exact Fractions from the decoded blocks must equal the multiset of (block,event,field,kind) returned '
         'by seq.check_timing(); every injected fault must appear. Correspondence: the extracted Coq model must return the same '
         'ordered report and the same calc_duration per block. non-trivial = at least one error reported or >= 3 event kinds')
@@ -154,16 +154,18 @@ def inject(rng, case, opts, kinds=None):
                 return None
             for ev in evs:
                 if ev['k'] in ('rfb', 'rfs') and 'delay' not in ev['set']:
-                    n = int(F(s['rf_dead']) / F(s['rf']))
-                    ev['set']['delay'] = float((n - rng.randint(1, n)) * F(s['rf']))
+                    # raster-aligned delay below the dead time: by whole steps, or (dead time off the raster) by the
+                    # fraction of a step that rounding the dead time DOWN loses
+                    n = math.ceil(F(s['rf_dead']) / F(s['rf']) - Fraction(1, 10 ** 6))
+                    ev['set']['delay'] = float((n - rng.choice([1, 1, rng.randint(1, n)])) * F(s['rf']))
                     return ('rf delay below dead time', [(bi + 1, 'rf', 'delay', 'RF_DEAD_TIME')])
         elif kind == 'dead_adc':
             if s['adc_dead'] <= 0:
                 return None
             for ev in evs:
                 if ev['k'] == 'adc' and 'delay' not in ev['set']:
-                    n = int(F(s['adc_dead']) / F(s['rf']))
-                    ev['set']['delay'] = float((n - rng.randint(1, n)) * F(s['rf']))
+                    n = math.ceil(F(s['adc_dead']) / F(s['rf']) - Fraction(1, 10 ** 6))
+                    ev['set']['delay'] = float((n - rng.choice([1, 1, rng.randint(1, n)])) * F(s['rf']))
                     return ('adc delay below dead time', [(bi + 1, 'adc', 'delay', 'ADC_DEAD_TIME')])
         elif kind == 'alt':
             if not case.get('alt'):
@@ -173,9 +175,10 @@ def inject(rng, case, opts, kinds=None):
                 if ev['k'] in ('rfb', 'rfs', 'adc') and not ev['alt'] and 'delay' not in ev['set']:
                     # rebuild the event for the other system: its delay follows that system's dead time
                     own = 'rf_dead' if ev['k'] != 'adc' else 'adc_dead'
-                    extra = F(ev['delay']) - F(s[own])
+                    rr = F(s['rf'])
+                    extra = F(ev['delay']) - math.ceil(F(s[own]) / rr - Fraction(1, 10 ** 6)) * rr
                     ev['alt'] = True
-                    ev['delay'] = float(F(a[own]) + extra)
+                    ev['delay'] = float(math.ceil(F(a[own]) / rr - Fraction(1, 10 ** 6)) * rr + extra)
                     exp = []
                     if F(ev['delay']) < F(s[own]) - tg.EPS * 2:
                         exp.append((bi + 1, tg.slot_of(ev), 'delay', 'RF_DEAD_TIME' if ev['k'] != 'adc' else 'ADC_DEAD_TIME'))
@@ -233,8 +236,8 @@ def variant():
     return bool(m) and 'block_durations' in m.group(1)
 
 
-def gen_case(rng, stream):
-    s = tg.gen_system(rng)
+def gen_case(rng, stream, s=None):
+    s = s or tg.gen_system(rng)
     opts = tg.make_opts(s)
     nb = rng.randint(1, 8)
     case = {'stream': stream, 'sys': s, 'alt': None,
@@ -354,6 +357,106 @@ def evaluate(ctx, case, collect=None):
     return {'sys': s, 'ds': ds, 'irep': irep, 'near': near, 'calc': cd, 'ok': ok, 'seq': seq, 'sig': sig}
 
 
+# ------------------------------------------------------------------------------------------------
+# object histories: check_timing is a function of the object's CURRENT content, whatever happened to the object before
+def gen_history(rng):
+    s = tg.gen_system(rng)
+    first = gen_case(rng, rng.choice(['valid', 'valid', 'fault1']), s)
+    other = gen_case(rng, rng.choice(['fault1', 'fault1', 'valid', 'alt']), s)       # content of the file that gets loaded
+    pool = gen_case(rng, rng.choice(['fault1', 'faultN', 'valid']), s)
+    longer = dict(s)
+    rr = F(s['rf'])
+    for k in ('rf_dead', 'adc_dead', 'rf_ring'):
+        longer[k] = float(F(s[k]) + rng.choice([0, 10, 40]) * rr)
+    steps = []
+    for _ in range(rng.randint(2, 5)):
+        k = rng.choice(['add', 'set', 'read', 'read', 'dedup', 'system', 'check'])
+        if k in ('add', 'set'):
+            steps.append([k, rng.randint(0, 10 ** 6), copy.deepcopy(rng.choice(pool['blocks']))])
+        elif k == 'system':
+            steps.append([k, rng.choice([longer, tg.shorter_system(rng, s), s])])
+        else:
+            steps.append([k])
+    return {'stream': 'history', 'sys': s, 'alt': None, 'faults': [], 'expected': [], 'blocks': first['blocks'],
+            'first': first, 'other': other, 'pool_alt': pool.get('alt'), 'steps': steps}
+
+
+def judge(ctx, case, seq, label):
+    """check_timing of the object as it is now against the oracle for its current content"""
+    import pypulseq as pp
+    try:
+        ok, report = seq.check_timing()
+    except Exception as e:  # noqa: BLE001
+        ctx.fail('C10/history/check_timing-raises', case, {'after': label, 'exception': repr(e)})
+        return None
+    irep = tg.norm_report(report)
+    s = tg.sys_fr(seq)
+    ds = [tg.decode(seq, bid) for bid in seq.block_events]
+    orep, near = tg.oracle_report(s, ds, variant())
+    sig = None
+    if ok != (len(report) == 0):
+        sig = 'C10/history/ok-flag'
+        ctx.fail(sig, case, {'after': label, 'ok': ok, 'n': len(report)})
+    elif not near and sorted(irep) != sorted(orep):
+        extra = sorted(set(irep) - set(orep))
+        lack = sorted(set(orep) - set(irep))
+        sig = 'C10/history/%s-after-%s' % ('stale-or-spurious' if extra else 'unreported', label.split(':')[0])
+        ctx.fail(sig, case, {'after': label, 'reported_not_violated': extra[:6], 'violated_not_reported': lack[:6], 'report': irep[:8]})
+    ctx.count('history.check_after.' + label.split(':')[0])
+    ctx.count('history.report.' + ('empty' if not irep else 'errors'))
+    cd = [F(pp.calc_duration(seq.get_block(bid))) for bid in seq.block_events]
+    return {'sys': s, 'ds': ds, 'irep': irep, 'near': near, 'calc': cd, 'ok': ok, 'seq': seq, 'sig': sig}
+
+
+def evaluate_history(ctx, case):
+    import pypulseq as pp
+    items = []
+    try:
+        seq = build(case['first'])
+    except Exception:  # noqa: BLE001
+        ctx.count('history.build_raises')
+        return items
+    opts = tg.make_opts(case['sys'])
+    alt = tg.make_opts(case['pool_alt']) if case.get('pool_alt') else opts
+    it = judge(ctx, case, seq, 'build')
+    if it:
+        items.append(it)
+    for n, st in enumerate(case['steps']):
+        k = st[0]
+        label = '%s:%d' % (k, n)
+        try:
+            with warnings.catch_warnings():
+                warnings.simplefilter('ignore')
+                if k == 'add':
+                    seq.add_block(*[tg.build_event(e, opts, alt) for e in st[2]['events']])
+                elif k == 'set':
+                    ids = list(seq.block_events)
+                    seq.set_block(ids[st[1] % len(ids)], *[tg.build_event(e, opts, alt) for e in st[2]['events']])
+                elif k == 'read':
+                    src = build(case['other'])
+                    with tempfile.TemporaryDirectory(prefix='pvC10h') as d:
+                        fn = os.path.join(d, 'o.seq')
+                        src.write(fn, create_signature=False)
+                        seq.read(fn)
+                elif k == 'dedup':
+                    seq.remove_duplicates(in_place=True)
+                elif k == 'system':
+                    seq.system = tg.make_opts(st[1])
+                    seq.block_cache.clear()      # decoded RF events carry the dead / ring-down times of the system
+        except Exception as e:  # noqa: BLE001
+            # a rejected block (set_block checks) or an unwritable source file leaves the object as it was
+            ctx.count('history.step_raises.' + k + '.' + type(e).__name__)
+            continue
+        it = judge(ctx, case, seq, label)
+        if it:
+            items.append(it)
+            if it['sig']:
+                break
+    ctx.evaluated(('c10h', repr(case['steps']), repr(case['first']['blocks'])), nontrivial=True)
+    ctx.count('stream.history')
+    return items
+
+
 def compare_model(ctx, items):
     lines = ['timing.check %s %s' % (tg.sys_tok(it['sys']), tg.blocks_tok(it['ds'])) for _, it in items]
     outs = ctx.model(lines)
@@ -458,10 +561,27 @@ def run(ctx):
     import pypulseq as pp
     if Fraction(repr(float(pp.eps))) != tg.EPS:
         ctx.fail('C10/eps-changed', {'eps': float(pp.eps)}, {'expected': float(tg.EPS)})
-    n = {'quick': 1300, 'thorough': 40000}[ctx.tier]
+    n = {'quick': 1100, 'thorough': 40000}[ctx.tier]
+    # (first: an escalated run must not spend its whole time box on the single-shot cases)
+    # object histories
+    hr = ctx.rng('histories')
+    pending = []
+    for i in range({'quick': 110, 'thorough': 1500}[ctx.tier]):
+        if ctx.out_of_time():
+            ctx.notes.append('time budget reached after %d histories' % i)
+            break
+        case = gen_history(hr)
+        for it in evaluate_history(ctx, case):
+            if ctx.model_available and it['sig'] is None:
+                pending.append((case, it))
+        if i == 3:
+            ctx.sample({'stream': 'history', 'steps': [st[0] for st in case['steps']]})
+    if pending and ctx.model_available:
+        compare_model(ctx, pending)
     rng = ctx.rng('sequences')
     streams = ['valid'] * 3 + ['fault1'] * 4 + ['faultN'] * 2 + ['alt']
-    cases = corpus() + [gen_case(rng, streams[i % len(streams)]) for i in range(n)]
+    import itertools
+    cases = itertools.chain(corpus(), (gen_case(rng, streams[i % len(streams)]) for i in range(n)))     # lazily: time-boxed runs
     pending = []
     for i, case in enumerate(cases):
         if ctx.out_of_time():
@@ -485,6 +605,11 @@ def run(ctx):
 
 
 def replay(ctx, case):
+    if case.get('stream') == 'history':
+        items = evaluate_history(ctx, case)
+        if ctx.model_available:
+            compare_model(ctx, [(case, it) for it in items if it['sig'] is None])
+        return {'steps': [st[0] for st in case['steps']], 'reports': [it['irep'][:6] for it in items]}
     it = evaluate(ctx, case)
     if it is None:
         return {'note': 'case does not build'}
